@@ -97,7 +97,7 @@ Section WrapNarrow.
   Definition Hf (l : Z) : Z := height_for_line sw haspfx pfx (line_of l) l width None.
   Definition tbh (s : Z) : Z := height_for_line sw haspfx pfx (line_of cyr) cyr width (Some s).
   Definition st' : sstate :=
-    scroll_wrap fixed allow Hf tbh width height top bottom cyr cxc (len lines) st.
+    scroll_wrap_gen fixed allow Hf tbh width height top bottom cyr cxc (len lines) st.
   Definition out : cst := copy_body sw dw disp true haspfx pfx width height xpos ypos lines st'.
 
   Hypothesis Hcx : 0 <= cxc < len (line_of cyr).
